@@ -285,13 +285,18 @@ class C04(Oracle):
                 target = changed[0]
         for n in changed:
             if n is not target:
+                if self.lenient:
+                    # as infrastructure the ledger records the truth of the history (this reward belongs to the point
+                    # that was returned); where the library booked it is C04's own business
+                    ctx.stats["ledger-library-booked-elsewhere"] += 1
+                    continue
                 ctx.fail("C04", "credit-set", "%s: stored reward of cell %s changed, but it is not the cell handed out" % (k, self.name(ag, n)))
         if target is None:
             ctx.stats["c04-soo-target-unknown"] += 1
             return
         if not same_point(target.get_cpoint(), p):
             ctx.fail("C04", "credit-set", "%s: cell marked evaluated (%s) is not the one whose representative was returned" % (k, self.name(ag, target)))
-        if not _same_value(target.get_reward(), r):
+        if not _same_value(target.get_reward(), r) and not self.lenient:
             ctx.fail("C04", "credit-value", "%s: cell %s stores %r, reward handed in was %r" % (k, self.name(ag, target), target.get_reward(), r))
         led = self.led(target)
         led.list.append(r)
